@@ -218,7 +218,7 @@ func runC11(c *report.Ctx) {
 				bad = n
 			case *ssa.Convert:
 				d := p.Desc(y.X)
-				if strings.Contains(d, "Iterator.Key(") || strings.HasPrefix(d, "masswallet/db/ldb.joinBucketPath(") || strings.Contains(d, "*ssa.Next#") || strings.HasPrefix(d, "phi(") && strings.Contains(d, "joinBucketPath") {
+				if strings.Contains(d, "Iterator.Key(") || strings.HasPrefix(d, "masswallet/db/ldb."+nm(join)+"(") || strings.Contains(d, "*ssa.Next#") || strings.HasPrefix(d, "phi(") && strings.Contains(d, nm(join)) {
 					continue
 				}
 				// range key over GetNetPutsByPrefix (inner keys)
@@ -296,7 +296,7 @@ func runC11(c *report.Ctx) {
 		}
 		for _, st := range fieldStores(newIt, rng, "Limit") {
 			d := p.Desc(st.(*ssa.Store).Val)
-			if strings.Contains(d, "innerKeyForIterator") {
+			if strings.Contains(d, nm(innerKeyIt)) {
 				okL = true
 			}
 		}
